@@ -894,7 +894,7 @@ def _claims():
 
 
 def check_default(cx, case, out):
-    cl = _claims()[case["claim"]]
+    cl = case          # the case is the claim itself (reader, key, variants, parent, doc)
     reader, key = cl["reader"], cl["key"]
     site = cl.get("site", FROM[reader].__name__)
     vkey = "%s:%s:default:%s" % (PID, site, key if key != "units-partial" else "partial-dict")
@@ -1383,9 +1383,11 @@ def _spaces(tier, seed):
                gen_alias, n_alias, 20))
 
     def gen_default():
-        for i in range(len(_claims())):
-            yield {"sub": "default", "claim": i, "reader": _claims()[i]["reader"], "key": _claims()[i]["key"],
-                   "parent": _claims()[i]["parent"]}
+        for cl in _claims():
+            case = {"sub": "default"}
+            case.update(copy.deepcopy(cl))
+            case["variants"] = [[n, d] for n, d in case["variants"]]
+            yield case
     sp.append(("defaults: every documented optional key omitted one at a time vs the default written explicitly; every proper subset of a units-system dictionary and the 'default' string at the 9 places a units entry is read",
                gen_default, len(_claims()), 20))
     return sp
